@@ -21,6 +21,7 @@ def scorer(cls="StructureScore"):
 
 
 class Score(Contract):
+    pure = True   # does not modify any pre-existing object
     file = "pgmpy/estimators/StructureScore.py"
     qual = "StructureScore.score"
     Sum = z3.Function("SumLocalScores", SetA, R)
